@@ -60,8 +60,12 @@ type Device struct {
 	RpmRead        ReadMode
 	Raw            string // RegRaw content
 	RawRead        ReadMode
-	// Log of writes: "pwm=<v>" / "mode=<v>" with ":refused" / ":ignored" suffix
+	// Log of writes: "pwm=<v>" / "mode=<v>" (":refused" suffix for refused writes)
 	Log []string
+	// OnWrite, if set, is called for every write (while the hook lock is held: it must not call
+	// back into this package); LogOff disables the Log slice
+	OnWrite func(entry string)
+	LogOff  bool
 }
 
 type binding struct {
@@ -150,23 +154,32 @@ func regWrite(path string, b binding, data []byte) error {
 	default:
 		return &fs.PathError{Op: "write", Path: path, Err: syscall.EACCES}
 	}
+	note := func(e string) {
+		if !d.LogOff {
+			d.Log = append(d.Log, e)
+		}
+		if d.OnWrite != nil {
+			d.OnWrite(e)
+		}
+	}
 	switch mode {
 	case WriteRefused:
-		d.Log = append(d.Log, fmt.Sprintf("%s=%d:refused", name, v))
+		note(fmt.Sprintf("%s=%d:refused", name, v))
 		return &fs.PathError{Op: "write", Path: path, Err: syscall.EINVAL}
 	case WriteIgnored:
-		d.Log = append(d.Log, fmt.Sprintf("%s=%d", name, v))
+		note(fmt.Sprintf("%s=%d", name, v))
 		return nil
 	}
-	d.Log = append(d.Log, fmt.Sprintf("%s=%d", name, v))
 	if b.reg == RegPwm {
+		w := v
 		if d.Resp != nil {
-			v = d.Resp(v)
+			w = d.Resp(v)
 		}
-		d.Pwm = v
+		d.Pwm = w
 	} else {
 		d.Mode = v
 	}
+	note(fmt.Sprintf("%s=%d", name, v))
 	return nil
 }
 
@@ -262,3 +275,10 @@ func TakeSleepLog() []time.Duration {
 }
 
 var ErrHook = errors.New("verifhook")
+
+func init() {
+	// a separately started fan2go process (daemon stream) can be put into virtual time
+	if os.Getenv("VERIF_VIRTUAL_CLOCK") == "1" {
+		SetClock(time.Now().UnixNano())
+	}
+}
